@@ -789,6 +789,11 @@ def unmarshal_array(ct, data, offset, lendian, oobFDs):
         nbytes, value = unmarshallers[tcode](
             tsig, data, offset, lendian, oobFDs)
 
+        if nbytes == 0:
+            # e.g. 'a()': no progress would be made, forever
+            raise MarshallingError(
+                'Invalid array encoding: zero-length array element')
+
         offset += nbytes
         values.append(value)
 
